@@ -46,6 +46,7 @@ type Obligation struct {
 	ex      *Exec
 	Static  string // statically decided failure reason (no SMT)
 	fullSMT, weakSMT, ufSMT string
+	Reveal  []string
 }
 
 type ModelVar struct {
@@ -206,6 +207,7 @@ func (ex *Exec) oblige(st *State, kind, name string, goal *Term, src string) *Ob
 	o := &Obligation{Name: ex.fi.Key + "#" + name, Kind: kind, Func: ex.fi.Key, Guard: st.guard, Goal: goal, NDecl: len(ex.decls), Unfold: ex.unfoldDepth(), Src: src, ex: ex, Inputs: ex.inputs}
 	if ex.fc != nil {
 		o.Props = ex.fc.Props
+		o.Reveal = ex.fc.Reveal
 	}
 	ex.obls = append(ex.obls, o)
 	return o
@@ -1261,14 +1263,32 @@ func (ex *Exec) merge(sts []*State) *State {
 			}
 			res.vars[obj] = ex.mergeVal(obj.Name(), g2, v2, v1)
 		}
+		// heap entries absent from a state denote the entry heap constant
+		for k, v := range s.ghost {
+			if strings.HasPrefix(k, "H:") {
+				if _, ok := res.ghost[k]; !ok {
+					res.ghost[k] = tv(heapDefault(k, v.T.S), nil)
+				}
+			}
+		}
 		for k, v1 := range res.ghost {
 			if v2, ok := s.ghost[k]; ok {
-				res.ghost[k] = ex.mergeVal(k, g2, v2, v1)
+				res.ghost[k] = ex.mergeVal(sanitize(k), g2, v2, v1)
+			} else if strings.HasPrefix(k, "H:") {
+				res.ghost[k] = ex.mergeVal(sanitize(k), g2, tv(heapDefault(k, v1.T.S), nil), v1)
 			}
 		}
 		res.guard = ex.define("g", tOr(g1, g2))
 	}
 	return res
+}
+
+func heapDefault(key string, s *Sort) *Term {
+	name := strings.TrimPrefix(key, "H:")
+	if name == "$alloc" {
+		name = "H_alloc"
+	}
+	return cnst(name, s)
 }
 
 func (ex *Exec) mergeVal(name string, c *Term, a, b *Val) *Val {
@@ -1725,6 +1745,9 @@ func (ex *Exec) execLoop(st *State, n int, node ast.Node, cond ast.Expr, body *a
 		pre(bodySt)
 	}
 	ex.coverPoint(bodySt, "loopbody", ex.pos(node))
+	for _, u := range ls.BeginUses {
+		ex.applyLemma(bodySt, u, nil)
+	}
 	for i, a := range ls.Asserts {
 		g := ex.specBool(bodySt, a.E, nil)
 		ex.oblige(bodySt, "assert", fmt.Sprintf("assert.loop%d.%s", n, clauseName(a, i)), g, a.Src)
@@ -1821,6 +1844,7 @@ func (ex *Exec) execRange(st *State, s *ast.RangeStmt) *Flow {
 	ex.assume(exitSt, tEq(iT, length))
 	bodySt := head.clone()
 	ex.assume(bodySt, mk("<", SBool, iT, length))
+	bodySt.ghost["$i"] = head.vars[keyObj]
 	if id, ok := s.Value.(*ast.Ident); ok && id.Name != "_" {
 		vobj := ex.info.ObjectOf(id)
 		var ev *Val
